@@ -2355,6 +2355,12 @@ class Exec(object):
         if topc is not None and fq in (topc.get("inline_callees") or ()):
             return self.run_function(fref, env, line)
         if contract is not None and not contract.get("inline"):
+            evs = (topc.get("callee_events") or {}) if topc is not None else {}
+            if fq not in evs and not eng.callee_ready(fq):
+                # the contract describes fields the call changes but does not say (havoc) that they change: it was written
+                # to be PROVED, not to be assumed.  Executing the callee's real body in place is always sound.
+                self.ctx.tags.add("callee executed in place (its contract is not written for call sites): %s" % fq.split("mingus.")[-1])
+                return self.run_function(fref, env, line)
             return eng.apply_contract(self, fref, contract, env, line)
         if self.concrete or (contract is not None and contract.get("inline")) or fq in eng.inline or \
                 fref.closure is not None and eng.contracts.get(fq) is None and eng.inline_closures:
